@@ -64,10 +64,27 @@ fn shape_case(ctx: &mut Ctx, rng: &mut Rng, i: u64) {
     let exe_dir = dir.join("bin");
     std::fs::create_dir_all(&exe_dir).unwrap();
     let exe = exe_dir.join(&name);
-    let succeed = rng.chance(600);
+    let succeed = rng.chance(550);
     if succeed {
         if std::fs::hard_link(&ctx.vchild, &exe).is_err() {
             std::fs::copy(&ctx.vchild, &exe).unwrap();
+        }
+    } else {
+        // the ways an exec can fail: nothing there, not executable, not an executable format, a directory
+        use std::os::unix::fs::PermissionsExt;
+        match rng.below(4) {
+            0 => {}
+            1 => {
+                std::fs::write(&exe, b"#!/bin/true\n").unwrap();
+                std::fs::set_permissions(&exe, std::fs::Permissions::from_mode(0o644)).unwrap();
+            }
+            2 => {
+                std::fs::write(&exe, b"neither a binary nor a script\n").unwrap();
+                std::fs::set_permissions(&exe, std::fs::Permissions::from_mode(0o755)).unwrap();
+            }
+            _ => {
+                let _ = std::fs::create_dir_all(&exe);
+            }
         }
     }
     // PATH shape
@@ -114,12 +131,13 @@ fn shape_case(ctx: &mut Ctx, rng: &mut Rng, i: u64) {
     // cwd length
     let cwd_len = match rng.below(6) { 0 => rng.range(385, 1000), 1 => rng.range(1000, 3900), 2 => rng.range(300, 384), 3 => 0, _ => rng.range(60, 299) } as usize;
     let cwd = if cwd_len == 0 { None } else { Some(deep_dir(&dir, cwd_len)) };
-    let streams = rng.below(4);
+    let streams = rng.below(7);
     let mk = |s: u64| match s { 0 => Redirection::None, _ => Redirection::Pipe };
     let config = PopenConfig {
         stdin: mk(streams & 1),
-        stdout: mk(streams & 2),
-        stderr: if streams == 3 { Redirection::Merge } else { Redirection::None },
+        // 4: 2>&1 onto the inherited stdout, 5: 1>&2 onto the inherited stderr, 6: stdout to a file and 2>&1
+        stdout: match streams { 5 => Redirection::Merge, 6 => Redirection::File(std::fs::File::create(dir.join("out.txt")).unwrap()), 4 => Redirection::None, _ => mk(streams & 2) },
+        stderr: if streams == 3 || streams == 4 || streams == 6 { Redirection::Merge } else { Redirection::None },
         cwd: cwd.as_ref().map(|p| p.clone().into_os_string()),
         env,
         setpgid: rng.chance(200),
